@@ -19,7 +19,8 @@ RULE = ("exhaustive schedules (all thread-id words up to a length covering every
         "6 calls incl. reads, with balances at 0/1/max boundaries, initial > max (clamped by the constructor), "
         "sizes at and beyond 2^64/1000 and u64::MAX (saturating scale), AIMD floors/ceilings, withdraw_amount 0 and "
         "> max, deposit_amount up to u64::MAX, decrease factors 0..1 (and >1), both construction routes (new / "
-        "builder + dyn object); virtual time advances between all steps; non-trivial = at least two workers "
+        "builder + dyn object); virtual time advances between all steps (monotonic AND wall clock: "
+        "harness VIRT_REALTIME); non-trivial = at least two workers "
         "performed atomic steps inside the scheduled part")
 TRUSTED = [
     "verif-hooks atomics (tower_resilience_core::verif::atomic): fetch_update = load + compare-exchange loop "
@@ -30,10 +31,14 @@ TRUSTED = [
     "reading its ceiling, is covered because the theorems hold for any ceiling value read)",
     "decrease (current as f64 * factor) as usize modelled as an abstract function dec (theorems: for ALL dec); "
     "executable instance floor(x*num/den), generator keeps only (factor, max) pairs on which IEEE binary64 "
-    "agrees with it for every x <= max (checked with Python floats; above 1000 only factor 0)",
+    "agrees with it for every x <= max (checked with Python floats); factors 0, 1 and 1/2^k are exact for every "
+    "limit up to usize::MAX (the binary64 rounding of the limit is modelled: Model.Budget.r53) and are the ones "
+    "used above 1000",
 ]
 ASSUMPTIONS = ["0 <= initial_tokens, max_tokens, amounts <= usize::MAX = 2^64-1 (64-bit target); "
-               "min_budget <= max_budget (AimdController::new panics otherwise)",
+               "min_budget <= max_budget (AimdController::new panics otherwise -- mind the builder's default "
+               "min_budget = 10: RetryBudgetBuilder::new().aimd().max_budget(5).build() panics; scripts always "
+               "set all five AIMD parameters)",
                "TokenBucketBudget::new: sizes above (2^64-1)/1000 tokens saturate at u64::MAX thousandths "
                "(defined behaviour since /repo a863e6a, modelled exactly); saturating adds are modelled exactly"]
 
@@ -76,11 +81,29 @@ def is_tb(kind):
     return kind in (0, 2)
 
 
+def r53(x):
+    """(x as f64) for 0 <= x < 2^64 as an integer: round to nearest even at 53 bits (= Model.Budget.r53)"""
+    if x < 1 << 53:
+        return x
+    e = x.bit_length() - 53
+    p = 1 << e
+    q, r = divmod(x, p)
+    if 2 * r > p or (2 * r == p and q % 2 == 1):
+        q += 1
+    return q * p
+
+
+assert all(r53(x) == int(float(x)) for x in [(1 << 64) - 1, (1 << 64) - 2, (1 << 53) + 3, (1 << 53) + 1, (1 << 63) + 1024,
+                                             (1 << 63) + 1025, 12345678901234567890, 3 << 61])
+
+
 def float_exact(num, den, mx):
-    """the modelling bound: floor(x*num/den) == ((x as f64) * (num/den)) as usize for all 0 <= x <= mx"""
+    """the modelling bound: Model.Budget.dec_q num den x == ((x as f64) * (num/den)) as usize for all 0 <= x <= mx.
+    Factors 0, 1 and 1/2^k are exact for EVERY x (the rounding of x to binary64 is modelled, r53; the product by a
+    power of two is exact; the cast truncates and saturates)"""
     if den == 0:
         return False
-    if num == 0:
+    if num == 0 or num == den or (num == 1 and den in (2, 4, 8)):
         return True
     if mx > 1000:
         return False
@@ -122,6 +145,14 @@ def corpus():
     out.append(mk(1, [U64 - 1, U64, 2, 1, 0, 1], [W, W, W], [[D, D], [D, M]], [0, 1, 0, 1, 0, 0, 0, 1, 0, 0, 1, 1, 1]))
     out.append(mk(1, [1, 4, 1, 0, 1, 2], [W], [[D, W], [W, W]], [0, 1, 1, 0, 0, 1, 0, 0, 0]))
     out.append(mk(1, [1, 4, 1, 5, 1, 2], [W], [[D, W], [W, M]], [0, 1, 1, 0, 0, 1, 0, 0, 0, 1, 1]))
+    # record_failure's upper clamp with a factor <= 1 (review 2, D3): max = 2^64-2, factor 1: (max as f64) = 2^64, the
+    # cast saturates to usize::MAX > max; max = 2^53+3 rounds to 2^53+4. A refused withdrawal runs record_failure,
+    # the deposit that follows caps at the ceiling: without the clamp ceiling and balance end above max_budget
+    for mxb in (U64 - 1, (1 << 53) + 3):
+        out.append(mk(1, [0, mxb, 1, U64, 1, 1], [W, M], [[D, B], [W, M]], [0, 1, 0, 1, 0, 0, 0, 1, 0, 0, 1]))
+        out.append(mk(1, [1, mxb, 2, mxb, 1, 1], [W, W, M, D, B], [[D, B], [W, M]], [0, 1, 0, 1, 0, 0, 0, 1, 0, 0, 1]))
+        out.append(mk(3, [0, mxb, 1, U64, 1, 1], [W, D, B], [[D, B], [W, B]], [0, 1, 0, 1, 0, 0, 0, 1, 0, 0, 1]))
+    out.append(mk(1, [0, 1 << 63, 1, U64, 1, 2], [W, M, W, M], [[D, B], [W, M]], [0, 1, 0, 1, 0, 0, 0, 1, 0, 0, 1]))
     # the builder route with deposit_amount != withdraw_amount (an exchange of the two in
     # AimdBudgetBuilder::build grants retries that were never funded)
     out.append(mk(3, [1, 4, 1, 2, 1, 2], [W, W, B], [[D, W], [D, B]], [0, 0, 0, 1, 1, 1, 0, 0, 1, 0]))
@@ -157,7 +188,8 @@ def rand_sched(rng, nth, total):
     return sched
 
 
-BIG = [TBCAP - 1, TBCAP, TBCAP + 1, U64, U64 - 1, 1 << 63, (1 << 53) + 1, 1 << 32]
+BIG = [TBCAP - 1, TBCAP, TBCAP + 1, U64, U64 - 1, U64 - 1, 1 << 63, (1 << 53) + 1, (1 << 53) + 3, (1 << 53) + 3, 1 << 32]
+BIGFACT = [(0, 1), (1, 1), (1, 1), (1, 2), (1, 4)]
 
 
 def rand_script(rng):
@@ -180,10 +212,10 @@ def rand_script(rng):
         if rng.random() < 0.12:
             mx = rng.choice(BIG)
             mn = rng.choice([0, 1, mx - 1, mx])
-            num, den = 0, 1
+            num, den = rng.choice(BIGFACT)
             amount = rng.choice([0, 1, 2, U64, mx, 1 << 63])
-            w = rng.choice([0, 1, 1, mx, U64, mx - 1])
-            pre = [rng.choice([W, D])] * rng.choice([0, 1, 2, 3])
+            w = rng.choice([0, 1, mx, mx, U64, U64, mx - 1])     # mostly refused: the exhausted path moves the ceiling
+            pre = [rng.choice([W, W, D])] * rng.choice([0, 1, 2, 3])
         else:
             mx = rng.choice([1, 2, 3, 4, 8, 20, 100])
             mn = rng.choice([0, 1, mx // 2, mx])
@@ -405,6 +437,12 @@ def monitor(s, t):
         at some ceiling within [min_budget, max_budget]) -- any linearization point inside an operation's
         interval is accepted, not a particular atomic step."""
     kind, params, pre, progs, sched = parse(s)
+    if list(t) == [-5]:
+        # the driver saw a worker complete a call without a single scheduled atomic step: the budget's atomics do
+        # not go through the instrumented wrappers on this tree, the workers ran unobserved, there is no history
+        # to judge. The model still answers the script, so the check reports a correspondence failure
+        # (no-failing-input-found), never a failing input.
+        return None
     sp = split_trace(s, t)
     if sp is None:
         return "malformed or panicking run: %s" % t[:12]
